@@ -112,6 +112,9 @@ def gen_struct(rng):
                 meta['unsupported'] = 1
             else:
                 name = names.pop() if names else 'n9'
+                if r > 0.96 and 'subpath' not in used and 'traverse' not in used:
+                    # names that mean something to code DOWNSTREAM of the mapper (the traverser reads them)
+                    name = "subpath" if r < 0.985 else "traverse"
             used.append(name)
             if old:
                 elems.append(('old', name))
@@ -125,7 +128,9 @@ def gen_struct(rng):
     if r < 0.30:
         if elems[-1] != ('lit', '/') and rng.random() < 0.8:
             elems.append(('lit', '/'))
-        star = '*' + rng.choice(['rest', 'rest', 'r', 'tail'])
+        star = '*' + rng.choice(['rest', 'rest', 'r', 'tail', 'rest', 'rest', 'r', 'tail', 'subpath', 'traverse'])
+        if star[1:] in [e[1] for e in elems if e[0] in ('hole', 'old')]:
+            star = '*rest'
     elif r < 0.32:
         star = '*'
     elif r < 0.33:
@@ -259,7 +264,37 @@ def gen_req(rng, decls):
         q.append([rng.choice(PKEYS).strip() if rng.random() < 0.8 else rng.choice(PKEYS), rng.choice(PVALS)])
     if q and rng.random() < 0.25:
         q.insert(rng.randrange(len(q) + 1), [rng.choice(q)[0], rng.choice(PVALS)])      # a key twice: the LAST value counts
-    return {'q': q, 'xhr': 1 if rng.random() < 0.3 else 0}
+    return {'q': q, 'xhr': 1 if rng.random() < 0.3 else 0, 'hdr': gen_hdrs(rng, decls)}
+
+
+HNAMES = ['X-Api-Version', 'Authorization', 'x-api-version', 'X_Api_Version', 'Accept-Language', 'X-A', 'If-Match']
+HVALS = ['2', '1', '22', 'beta', 'Bearer-t', '', 'a2', 'abc', 'a-c', 'x-1']
+HREGEX = ['2', '\\d+', 'Bearer-.+', '[a-z]+', 'a.c', '\\w+-\\d', '\\d', '.*', 'x?y', 'b', '[^a]+']
+HREGEX_UNSUP = ['2$', '(a|b)', '\\s*', 'a b']
+
+
+def gen_header_val(rng):
+    """one value of header=: 'Name' (present) or 'Name:regex' (present and the regex matches a prefix of the value)"""
+    n = rng.choice(HNAMES)
+    r = rng.random()
+    if r < 0.45:
+        return n
+    return '%s:%s' % (n, rng.choice(HREGEX_UNSUP) if r > 0.97 else rng.choice(HREGEX))
+
+
+def gen_hdrs(rng, decls):
+    want = [v.partition(':')[0] for d in decls for p in d['preds'] if p[0] == 'header' for v in p[2]]
+    out, keys = [], set()
+    for n in want + [rng.choice(HNAMES) for _ in range(rng.choice([0, 0, 1, 2]))]:
+        if n in want and rng.random() < 0.3:
+            continue            # a required header is missing
+        if rng.random() < 0.25:
+            n = rng.choice([n.upper(), n.lower(), n.replace('-', '_')])     # header names are case-insensitive
+        k = n.upper().replace('-', '_')
+        if k not in keys:
+            keys.add(k)
+            out.append([n, rng.choice(HVALS)])
+    return out
 
 
 def gen_traverse(rng, elems, star):
@@ -284,11 +319,23 @@ def gen_preds(rng, elems, star=''):
             preds.append(['const', 1 if rng.random() < 0.55 else 0])
         elif r < 0.5 or (r >= 0.78 and not hnames):
             preds.append(['method', rng.choice(['GET', 'POST'])])
-        elif r < 0.68:
+        elif r < 0.63:
             preds.append(['param', 1 if rng.random() < 0.2 else 0, [gen_param_val(rng) for _ in range(rng.choice([1, 1, 1, 2]))]])
             continue
-        elif r < 0.78:
+        elif r < 0.68:
+            preds.append(['rmethod', 1 if rng.random() < 0.2 else 0,
+                          rng.choice([['GET'], ['POST'], ['HEAD'], ['GET', 'POST'], ['POST', 'PUT'], ['GET', 'HEAD'], ['PUT']])])
+            continue
+        elif r < 0.73:
             preds.append(['xhr', 1 if rng.random() < 0.2 else 0, 1 if rng.random() < 0.6 else 0])
+            continue
+        elif r < 0.78 or (hnames and r > 0.95):
+            vals = []
+            for _ in range(rng.choice([1, 1, 2, 2, 3])):
+                v = gen_header_val(rng)
+                if v.partition(':')[0].upper().replace('-', '_') not in [x.partition(':')[0].upper().replace('-', '_') for x in vals]:
+                    vals.append(v)
+            preds.append(['header', 1 if rng.random() < 0.2 else 0, vals])
             continue
         else:
             e = rng.choice(hnames)
@@ -377,9 +424,9 @@ def gen_case(rng):
             b = corrupt(rng, b)
             meta['corrupt'] = 1
         s = b.decode('latin-1')
-    case = {'decls': decls, 'path': s, 'method': 'GET' if rng.random() < 0.7 else 'POST',
+    case = {'decls': decls, 'path': s, 'method': rng.choice(['GET'] * 6 + ['POST'] * 3 + ['HEAD'] * 2 + ['PUT']),
             'mode': 'router' if rng.random() < 0.10 else 'mapper', 'meta': meta}
-    if any(p[0] in ('param', 'xhr') for d in decls for p in d['preds']) or rng.random() < 0.1:
+    if any(p[0] in ('param', 'xhr', 'header') for d in decls for p in d['preds']) or rng.random() < 0.1:
         case['req'] = gen_req(rng, decls)
     if not router_ok(case):
         case['mode'] = 'mapper'
@@ -467,9 +514,13 @@ def router_ok(case):
         return False
     for d in case['decls']:
         # add_route takes ONE request_param= / xhr= / traverse= argument
-        for kind in ('param', 'xhr', 'traverse'):
+        for kind in ('param', 'xhr', 'traverse', 'header', 'rmethod'):
             if sum(1 for p in d['preds'] if p[0] == kind) > 1:
                 return False
+        # add_route(request_method=not_(..)) is refused at commit time (add_route wraps the not_ object with
+        # as_sorted_tuple before the predicate list sees it: TypeError in RequestMethodPredicate.text) -- nothing is dispatched
+        if any(p[0] == 'rmethod' and p[1] for p in d['preds']):
+            return False
         try:
             if urlparse(d['pattern']).hostname:
                 return False
@@ -529,6 +580,30 @@ def targeted(rng):
                 c = _case(['/s/{kind}', '/*all'], '/s/books', {0: [['xhr', 0, b]]}, mode=mode)
                 c['req'] = {'q': [], 'xhr': x}
                 yield c
+        # request_method=: GET implies HEAD, nothing else is implied
+        for vals in (['GET'], ['POST'], ['GET', 'POST'], ['HEAD'], ['PUT', 'POST']):
+            for neg in (0, 1):
+                for meth in ('GET', 'HEAD', 'POST', 'PUT'):
+                    if neg and mode == 'router':
+                        continue
+                    c = _case(['/i/{id}', '/i/{id}'], '/i/42', {0: [['rmethod', neg, vals]]}, mode=mode)
+                    c['method'] = meth
+                    yield c
+        # header= given a sequence: every requirement must hold, whatever order as_sorted_tuple puts them in
+        for vals in (['X-Api-Version:2', 'Authorization'], ['Authorization', 'X-Api-Version'], ['X-A:\\d+', 'If-Match:a.c'],
+                     ['Authorization'], ['X-Api-Version:\\d']):
+            for neg in (0, 1):
+                for hdr in ([], [['Authorization', 'Bearer-t']], [['X-Api-Version', '2']], [['authorization', 'x'], ['X-API-VERSION', '22']],
+                            [['Authorization', 'Bearer-t'], ['X_Api_Version', 'beta']], [['X-A', '7'], ['If-Match', 'abc']],
+                            [['X-A', 'x7'], ['If-Match', 'abc']]):
+                    c = _case(['/i/{id}', '/i/{id}'], '/i/42', {0: [['header', neg, vals]]}, mode=mode)
+                    c['req'] = {'q': [], 'xhr': 0, 'hdr': hdr}
+                    yield c
+        # placeholders whose NAME means something to the traverser: the view must still see the captured text
+        for pat, path in [('/dl/{subpath:.+}', '/dl/a//b/../c'), ('/w/{page}/att/{subpath}', '/w/Home/att/logo.png'),
+                          ('/s/*subpath', '/s/css/./app.css'), ('/t/{traverse:.+}', '/t/a/../b'), ('/t/*traverse', '/t/a//b'),
+                          ('/o/:subpath', '/o/x.y')]:
+            yield _case([pat, '/*all'], path, mode=mode)
         # custom predicates answering with falsy / truthy values that are not bools
         for f in range(NFLAV):
             for b in (0, 1):
